@@ -143,7 +143,8 @@ fn convert_doc(doc: &str) -> Result<Model, String> {
 }
 
 fn check_conversion(ctx: &Ctx, ends: &[u32], days7: &[usize], day_single: bool) -> u64 {
-    let wn = ["WA", "WB", "WA"];
+    // weeks by period: A,B,A - or, for every other list of end dates, A,A,B (two consecutive periods on one week)
+    let wn = if ends.iter().sum::<u32>() % 2 == 0 { ["WA", "WA", "WB"] } else { ["WA", "WB", "WA"] };
     let week_names: Vec<&str> = (0..ends.len()).map(|i| wn[i % 3]).collect();
     let doc = bdl_schedule_doc(ends, &week_names, days7, day_single);
     let case = || json!({"part": "conversion", "end_days_of_year": ends, "week_days": days7, "bdl": doc});
@@ -203,11 +204,24 @@ fn check_conversion(ctx: &Ctx, ends: &[u32], days7: &[usize], day_single: bool) 
         prev = *e;
     }
     let got_counts: Vec<u32> = y.values.iter().map(|v| v.1).collect();
-    if got_counts != exp_counts {
-        ctx.violation("conversion:year-period-lengths", &format!("period lengths {:?}, expected {:?} for end dates {:?}", got_counts, exp_counts, ends.iter().map(|e| md_of(*e)).collect::<Vec<_>>()), case());
-    }
     let got_weeks: Vec<String> = y.values.iter().map(|v| m.schedules.week.iter().find(|w| w.id == v.0).map(|w| w.name.clone()).unwrap_or_default()).collect();
-    if got_weeks != week_names.iter().map(|s| s.to_string()).collect::<Vec<_>>() {
+    // as a partition of the year: consecutive periods on one week are one stretch (a converter may write them either way)
+    let merged = |names: &[String], counts: &[u32]| -> Vec<(String, u32)> {
+        let mut out: Vec<(String, u32)> = vec![];
+        for (n, c) in names.iter().zip(counts.iter()) {
+            match out.last_mut() {
+                Some(l) if l.0 == *n => l.1 += *c,
+                _ => out.push((n.clone(), *c)),
+            }
+        }
+        out
+    };
+    let exp_names: Vec<String> = week_names.iter().map(|s| s.to_string()).collect();
+    let (gm, em) = (merged(&got_weeks, &got_counts), merged(&exp_names, &exp_counts));
+    if gm.iter().map(|x| x.1).collect::<Vec<_>>() != em.iter().map(|x| x.1).collect::<Vec<_>>() {
+        ctx.violation("conversion:year-period-lengths", &format!("period lengths {:?} on weeks {:?}, expected {:?} on {:?} for end dates {:?}", got_counts, got_weeks, exp_counts, week_names, ends.iter().map(|e| md_of(*e)).collect::<Vec<_>>()), case());
+    }
+    if gm.iter().map(|x| x.0.clone()).collect::<Vec<_>>() != em.iter().map(|x| x.0.clone()).collect::<Vec<_>>() {
         ctx.violation("conversion:year-weeks", &format!("weeks {:?}, expected {:?}", got_weeks, week_names), case());
     }
     // expanded: day n takes weekday slot n mod 7 of the period's week
@@ -226,7 +240,7 @@ fn check_conversion(ctx: &Ctx, ends: &[u32], days7: &[usize], day_single: bool) 
             n += 1;
         }
     }
-    if !ok && got_counts == exp_counts {
+    if !ok && gm == em {
         ctx.violation("conversion:weekday-alignment", "expanded converted schedule does not take the weekday slot of its period's week", case());
     }
     hash64(&got_counts)
@@ -503,7 +517,7 @@ pub fn run(ctx: &Ctx) -> i32 {
     ctx.nontriv(tot);
     ctx.finish(
         "model_checking",
-        "(a) SchedulesDb::get_year_as_day_sch on all 1-, 2- and 3-period partitions of 365 days (1 + 364 + 66066) x weekly patterns {7 distinct days, 5+2, one day x7, 1+1+5} per period (all 4^k combinations; 4 fixed combinations for 3 periods in quick), the 12 calendar months and all 2^11 merges of adjacent months: day n takes slot n mod 7 of its period's week, and for every 16th case the history expand -> weekly schedules edited in place (also on a clone) -> expand; (b) BDL SCHEDULE-PD / WEEK-SCHEDULE-PD / DAY-SCHEDULE-PD documents through Data::new + Model::try_from: every end date 1..365, every pair (d,31 Dec), every triple (a,b,31 Dec) (every 11th in quick), all 3^7 weekly name lists, daily lists of 24 values (written with one to four decimals) and of 1 value (0.004): period lengths from a calendar table, runs cover 7 days, 24 values equal to the written ones, weekday alignment; (c) occupancy on 1..3 spaces x kind x inside x multiplier x all set partitions of schedule sharing x daily profiles {zero, one, morning, evening, 1e-6, negative} (4..6 spaces: star/chain): (the last of two or more loads definitions has lighting and equipment but no occupancy schedule): occupied hours = count of hours with any non-zero occupancy, mean load = area-weighted mean of schedule-averaged loads; all cases distinct by construction",
+        "(a) SchedulesDb::get_year_as_day_sch on all 1-, 2- and 3-period partitions of 365 days (1 + 364 + 66066) x weekly patterns {7 distinct days, 5+2, one day x7, 1+1+5} per period (all 4^k combinations; 4 fixed combinations for 3 periods in quick), the 12 calendar months and all 2^11 merges of adjacent months: day n takes slot n mod 7 of its period's week, and for every 16th case the history expand -> weekly schedules edited in place (also on a clone) -> expand; (b) BDL SCHEDULE-PD / WEEK-SCHEDULE-PD / DAY-SCHEDULE-PD documents through Data::new + Model::try_from: every end date 1..365, every pair (d,31 Dec), every triple (a,b,31 Dec) (every 11th in quick), weeks A,B,A or A,A,B by period (compared as a partition: consecutive periods on one week count as one stretch), all 3^7 weekly name lists, daily lists of 24 values (written with one to four decimals) and of 1 value (0.004): period lengths from a calendar table, runs cover 7 days, 24 values equal to the written ones, weekday alignment; (c) occupancy on 1..3 spaces x kind x inside x multiplier x all set partitions of schedule sharing x daily profiles {zero, one, morning, evening, 1e-6, negative} (4..6 spaces: star/chain): (the last of two or more loads definitions has lighting and equipment but no occupancy schedule): occupied hours = count of hours with any non-zero occupancy, mean load = area-weighted mean of schedule-averaged loads; all cases distinct by construction",
         true,
         json!({}),
     )
